@@ -1,6 +1,6 @@
 //go:build verif
 
-package referenceserver
+package referenceclient
 
 import (
 	"testing"
